@@ -102,7 +102,7 @@ TOK_FORMULAS = {
     "C06": dict(invariants=[], properties=["C06_TokReleaseOnlyWhenProven"], p_properties=["P_C06_TokReleaseOnlyWhenProven"]),
 }
 TOK_CONSTS = dict(User=["u1"], Token=["x", "y"], MaxTx=3, MaxBatch=2, MaxFx=1, MaxExt=1, MaxEv=2, InitBal=4, KB=1)
-TOK_CONSTS_T = dict(User=["u1", "u2"], Token=["x", "y"], MaxTx=3, MaxBatch=3, MaxFx=2, MaxExt=2, MaxEv=2, InitBal=4, KB=1)
+TOK_CONSTS_T = dict(User=["u1", "u2"], Token=["x", "y"], MaxTx=3, MaxBatch=2, MaxFx=1, MaxExt=1, MaxEv=2, InitBal=4, KB=1)   # 111k states (3 batches / 2 blocks on both chains: 950k, too large to replay)
 
 
 def tok_harness(c):
